@@ -199,3 +199,30 @@ Definition run_source (ops : list (list Z)) : list (list Z) :=
                      | _ => [[-1]] end
   | _ => [[-1]]
   end.
+
+(* ---- whole system (System.v): one case =
+   [9; source cfg...; seq0; bits] ; [9; dest cfg...] ; [8; put request...] ; source path ++ [n; data...] ;
+   [nfaults; (dir; idx; kind; arg)*] ; [fuel; tick] ; dest path
+   obs = [quiescent; rounds; clock] ; errs ; source events ; dest events ; dest file ; [cnt s2d; cnt d2s] *)
+From CFDP Require Import System.
+Fixpoint dec_faults (n : nat) (l : list Z) : list fault :=
+  match n, l with
+  | S k, d :: i :: kd :: a :: t => mkFault d i kd a :: dec_faults k t
+  | _, _ => []
+  end.
+Definition run_system (ops : list (list Z)) : list (list Z) :=
+  match ops with
+  | [9 :: cs; 9 :: cd; 8 :: pr; fl; nf :: fts; [fuel; tick]; dnp] =>
+      match dec_lcfg cs, dec_lcfg cd, dec_put pr, dec_path fl, dec_path dnp with
+      | Some (cfs, [seq0; bits]), Some (cfd, _), Some p, Some (sn, n :: data), Some (dn, _) =>
+          let '(y, q) := transfer cfs cfd seq0 bits p sn (ztake n data) (dec_faults (Z.to_nat nf) fts) (Z.to_nat fuel) tick in
+          [[b2z q; y_round y; e_now (s_env (y_src y))];
+           flat_map (fun e => [fst e; snd e]) (rev (y_errs y));
+           enc_events (e_log (s_env (y_src y)));
+           enc_events (e_log (d_env (y_dst y)));
+           enc_file (e_fs (d_env (y_dst y))) dn;
+           [y_cnt_s2d y; y_cnt_d2s y]]
+      | _, _, _, _, _ => [[-1]]
+      end
+  | _ => [[-2]]
+  end.
